@@ -171,7 +171,8 @@ class Listeners:
                     yield listener.build_key(spec.attr_name), partial(callable_method, func)
                     return
 
-        yield f"{spec.attr_name}@None", partial(callable_method, spec.func)
+        # two different callables may share a name (lambdas, local functions)
+        yield f"{spec.attr_name}@{id(spec.func)}", partial(callable_method, spec.func)
 
     def search_name(self, name):
         for listener in self.items:
